@@ -699,7 +699,7 @@ func init() {
 		ID:        "C10",
 		Title:     "Bit-packed identifiers decode to what was packed",
 		Technique: "exhaustive-where-small plus structured bit-pattern and random sampling of each encode/decode pair (execution, not a symbolic proof)",
-		Rule: "case i is chunk i/7 of family i%7 (zigzag64; bucket header under every layout the builder creates for 1..2^40 features x type; type+namespace, value type, geometry length; " +
+		Rule: "case i is chunk i/7 of family i%7 (zigzag64; bucket header under every layout the builder creates for 1..2^40 features x type; type+namespace for all seven type codes, compact.Reference packing, value type, geometry length; " +
 			"tile IDs z 0..29; lat/lng IDs; postcodes + ONS codes; renderer zigzag); a chunk evaluates the family's structured patterns (0, all ones, single and two-bit words, masks of every width, +-2^k+-1), " +
 			"its slice of the exhaustive sweeps (type x namespace in chunk 0, geometry lengths 0..2^20 over chunks 0..31, every postcode position x character and position pair, renderer words [chunk*2^20,(chunk+1)*2^20) over chunks 0..4095) " +
 			"and fresh random words; distinct = distinct (family, chunk); non-trivial = the chunk includes inputs with the highest bit of the domain set (ID bit 63, |v| >= 2^62, zoom 29, 7-character postcodes), which every chunk does",
